@@ -9,7 +9,7 @@ WT=$(mktemp -d /tmp/tryseed.XXXXXX); rmdir "$WT"
 git -C /repo worktree add -q "$WT" HEAD || exit 3
 cleanup() { git -C /repo worktree remove --force "$WT" >/dev/null 2>&1; rm -rf "$WT"; }
 trap cleanup EXIT
-run_demo() { (cd "$WT" && cp "$DEMO" "$WT/_demo_seed.py" && PYTHONPATH="$WT" timeout 300 /venv/bin/python -m pytest -o addopts="" -p no:cacheprovider -q -x _demo_seed.py >/tmp/tryseed_demo.log 2>&1; echo $?); }
+run_demo() { (cd "$WT" && cp "$DEMO" "$WT/_demo_seed.py" && PYTHONPATH="$WT" timeout ${DEMO_TIMEOUT:-300} /venv/bin/python -m pytest -o addopts="" -p no:timeout -p no:cacheprovider -q -x _demo_seed.py >/tmp/tryseed_demo.log 2>&1; echo $?); }
 clean_rc=$(run_demo)
 (cd "$WT" && git apply "$PATCH") || { echo "PATCH-DOES-NOT-APPLY"; exit 3; }
 patched_rc=$(run_demo)
